@@ -186,8 +186,8 @@ func TestVerifC07Amf0(t *testing.T) {
 		}},
 	}
 	fams := []*vC07Fam{
-		{name: "amf0-nested-objects", dec: "amf0.any", build: vC07AmfNest, key: "amf0-quadratic-nesting"},
-		{name: "amf0-flat-object", dec: "amf0.any", build: vC07AmfFlat},
+		{name: "amf0-nested-objects", dec: "amf0.any", build: vC07AmfNest, key: "amf0-quadratic-nesting", cost: "amf0.any"},
+		{name: "amf0-flat-object", dec: "amf0.any", build: vC07AmfFlat, cost: "amf0.any"},
 		{name: "amf0-long-string", dec: "amf0.any", build: func(n int) []byte {
 			out := []byte{2, byte((n - 3) >> 8), byte(n - 3)}
 			return append(out, make([]byte, n-3)...)
